@@ -120,14 +120,56 @@ for _n in range(1, 8):
     _writer_unit(_n)
 
 
+@unit("C18", "write_WCC_WT_format[component classes]", scope="shape:n=2,3; every combination of zero / below-threshold / ordinary components in one row", expect_min=1)
+def _wclasses(U):
+    import itertools
+    cap = []
+
+    class W:
+        def write(self, s): cap.append(s)
+        def close(self): pass
+    f = U.fn(FH, "write_WCC_WT_format", globs=dict(np=rnp, open=lambda p, m="r": W()), model=False)
+
+    def body():
+        bad = []
+        vals = (0.0, 3e-8, -2.5, 1.25)
+        for n in (2, 3):
+            for row in range(n):
+                for combo in itertools.product(vals, repeat=3):
+                    del cap[:]
+                    D = rnp.array([[10.0 * i + c + 0.5 for c in range(3)] for i in range(n)])
+                    D[row] = combo
+                    f("seed", D)
+                    rows = [[float(x) for x in l.split()] for l in "".join(cap).split("\n") if l.strip()]
+                    order = list(range(0, n, 2)) + list(range(1, n, 2))
+                    want = [[(x if abs(x) > 1e-7 else 0.0) for x in D[order[t]]] for t in range(n)]
+                    if rows != want:
+                        bad.append((n, row, combo))
+        U.ensure("every component is written as itself (or as 0 when |x| <= 1e-7, independently of the other components), rows even-then-odd", not bad)
+        if bad:
+            ctx().ghost["bad"] = bad[:3]
+    U.run(body, check_feasible=False)
+
+
 # ------------------------------------------------------------------ bounded stand-in: real files
 def _herm_system(nw, seed):
     from wannierberri.system.system_R import System_R
     rnp.random.seed(seed)
-    s = System_R.from_random(num_wann=nw, nRvec=27, max_R=1, berry=True)
+    s = System_R.from_random(num_wann=nw, nRvec=27, max_R=1, berry=True, real_lattice=rnp.diag([1.0, 1.0, 1.7]))
     for key in list(s._XX_R.keys()):
         X = s.get_R_mat(key)
         s.set_R_mat(key, 0.5 * (X + s.rvec.conj_XX_R(X)), reset=True)
+    # centres on and off the axes (zero components included), a non-zero on-site position matrix element, a magnetic point group
+    wcc = rnp.random.rand(nw, 3)
+    wcc[0] = [0.0, 0.0, 0.37]
+    if nw > 1:
+        wcc[1] = [0.21, 0.0, 0.53]
+    s.wannier_centers_cart = wcc
+    AA = s.get_R_mat("AA").copy()
+    AA[s.rvec.iR0, rnp.arange(nw), rnp.arange(nw), :] = 0.1 * rnp.random.rand(nw, 3)
+    s.set_R_mat("AA", AA, reset=True)
+    s.clear_cached_wcc() if hasattr(s, "clear_cached_wcc") else None
+    s.set_pointgroup(symmetry_gen=["C4z", "TimeReversal*C2x"])
     return s
 
 
@@ -143,15 +185,28 @@ def _bands(system, ks):
 def _compare(a, b, tol, what, bad, ks):
     if not rnp.allclose(a.real_lattice, b.real_lattice, atol=tol):
         bad.append(what + ": lattice")
-    if a.num_wann != b.num_wann or not rnp.allclose(a.wannier_centers_cart, b.wannier_centers_cart, atol=max(tol, 2e-7)):
+    # the _tb.dat format stores the position matrix in convention II (on-site element + centre): with a non-zero on-site element the
+    # split into centre and matrix is not recoverable, only the sum is (compared below); the centres themselves are compared for npz / _hr.dat
+    if a.num_wann != b.num_wann or (what != "_tb.dat" and not rnp.allclose(a.wannier_centers_cart, b.wannier_centers_cart, atol=max(tol, 2e-7))):
         bad.append(what + ": wannier centres")
     ea, eb = _bands(a, ks), _bands(b, ks)
     if ea.shape != eb.shape or not rnp.allclose(ea, eb, atol=max(tol * 50, 1e-9)):
         bad.append(what + ": band energies at k (max diff %.2e)" % (abs(ea - eb).max() if ea.shape == eb.shape else -1))
+    if what == "npz":
+        ga = sorted((rnp.round(x.R * x.iInv, 6).tolist(), bool(x.TR)) for x in a.pointgroup.symmetries)
+        gb = sorted((rnp.round(x.R * x.iInv, 6).tolist(), bool(x.TR)) for x in b.pointgroup.symmetries)
+        if ga != gb:
+            bad.append(what + ": point group operations differ after reload")
     # R-space matrices compared as maps R -> matrix
-    for key in ("Ham",):
-        da = {tuple(R): a.get_R_mat(key)[i] for i, R in enumerate(a.rvec.iRvec)}
-        db = {tuple(R): b.get_R_mat(key)[i] for i, R in enumerate(b.rvec.iRvec)}
+    for key in ("Ham", "AA") if what in ("npz", "_tb.dat") else ("Ham",):
+        def conv2(sys_, key_):
+            X = sys_.get_R_mat(key_).copy()
+            if key_ == "AA":
+                X[sys_.rvec.iR0, rnp.arange(sys_.num_wann), rnp.arange(sys_.num_wann), :] += sys_.wannier_centers_cart
+            return X
+        Xa, Xb = conv2(a, key), conv2(b, key)
+        da = {tuple(int(x) for x in R): Xa[i] for i, R in enumerate(a.rvec.iRvec)}
+        db = {tuple(int(x) for x in R): Xb[i] for i, R in enumerate(b.rvec.iRvec)}
         for R in set(da) | set(db):
             x = da.get(R, 0 * next(iter(da.values())))
             y = db.get(R, 0 * next(iter(db.values())))
